@@ -159,12 +159,44 @@ func c19Optional(c *Ctx, sx *symx.Ctx) {
 	if !r.Anchor("O-1", "database.(*Database).applySemanticBoost", asb != nil) {
 		return
 	}
+	// the stage may also guard itself: everything in it that touches embeddings or
+	// scores is unreachable unless its own HasEmbeddings() test succeeded
+	selfGuarded := false
+	{
+		cut := map[[2]int]bool{}
+		for _, iff := range ssau.Ifs(asb) {
+			if hc, ok := iff.Cond.(*ssa.Call); ok && ssau.CallName(hc) == dbMeth+"HasEmbeddings" {
+				cut[[2]int{iff.Block().Index, 0}] = true
+			}
+		}
+		if len(cut) > 0 {
+			selfGuarded = true
+			ssau.ForEachInstr(asb, false, func(in ssa.Instruction) {
+				touch := false
+				switch x := in.(type) {
+				case *ssa.Store:
+					_, touch = ssau.IsFieldAddr(x.Addr, srType, "Score")
+				case *ssa.Call:
+					n := ssau.CallName(x)
+					touch = n == dbMeth+"EmbedQuery" || n == dbMeth+"SemanticScores" || strings.HasPrefix(n, "sort.")
+					if cal := x.Common().StaticCallee(); cal != nil {
+						if pk := c.P.PkgOfFunc(cal); pk != nil && pk.PkgPath == embPkg {
+							touch = true
+						}
+					}
+				}
+				if touch && ssau.ReachableAvoidingEdges(asb, in.Block(), cut) {
+					selfGuarded = false
+				}
+			})
+		}
+	}
 	nCalls := 0
 	for _, fn := range shippedFuncs(c) {
 		cd := ssau.ControlDeps(fn)
 		for _, call := range callsTo(fn, ssau.FuncName(asb)) {
 			nCalls++
-			guarded := false
+			guarded := selfGuarded
 			for _, d := range ssau.TransitiveControlDeps(cd, call.Block()) {
 				if hc, ok := d.If().Cond.(*ssa.Call); ok && ssau.CallName(hc) == dbMeth+"HasEmbeddings" && d.Then {
 					guarded = true
@@ -240,78 +272,48 @@ func c19Boost(c *Ctx, sx *symx.Ctx) {
 	for i, st := range writes {
 		key := fmt.Sprintf("%s#score-write-%d", fk, i+1)
 		fa := st.Addr.(*ssa.FieldAddr)
-		// value = load(same Score) * (1 + alpha*sim)
-		shape := ""
-		var sim ssa.Value
-		var alpha float64
-		mul, ok := st.Val.(*ssa.BinOp)
-		if !ok || mul.Op != token.MUL {
-			shape = "the new score is not the old score times a factor: " + f.Plain(st.Val)
-		} else {
-			old, factor := mul.X, mul.Y
-			if u, ok := old.(*ssa.UnOp); !ok || f.E(u.X) != f.E(fa) {
-				old, factor = factor, old
-			}
-			if u, ok := old.(*ssa.UnOp); !ok || f.E(u.X) != f.E(fa) {
-				shape = "the factor is not applied to the same element's own score"
-			} else if add, ok := factor.(*ssa.BinOp); !ok || add.Op != token.ADD {
-				shape = "the factor is not of the form 1 + alpha*sim: " + f.Plain(factor)
-			} else {
-				one, term := add.X, add.Y
-				if k, ok := ssau.ConstFloat(one); !ok || k != 1 {
-					one, term = term, one
-				}
-				if k, ok := ssau.ConstFloat(one); !ok || k != 1 {
-					shape = "the factor's constant term is not 1"
-				} else if tm, ok := term.(*ssa.BinOp); !ok || tm.Op != token.MUL {
-					shape = "the factor's variable term is not alpha*sim"
-				} else {
-					a, s := tm.X, tm.Y
-					if _, ok := ssau.ConstFloat(a); !ok {
-						a, s = s, a
-					}
-					av, ok := ssau.ConstFloat(a)
-					if !ok {
-						shape = "alpha is not a constant"
-					} else if av < 0 || math.IsInf(av, 0) || math.IsNaN(av) {
-						shape = fmt.Sprintf("alpha = %v is negative or not finite: the stage could lower scores", av)
-					} else {
-						sim, alpha = s, av
-					}
-				}
-			}
+		// value = load(same Score) * (1 + alpha*sim) under sim >= min >= 0 — written
+		// out here, or in a pure helper given the element's own score
+		isOwn := func(v ssa.Value) bool {
+			u, ok := v.(*ssa.UnOp)
+			return ok && f.E(u.X) == f.E(fa)
 		}
-		if shape != "" {
+		shape, guard, alpha := "", "", 0.0
+		if hc, isCall := st.Val.(*ssa.Call); isCall {
+			h := hc.Common().StaticCallee()
+			k := -1
+			for i, a := range hc.Common().Args {
+				if isOwn(a) {
+					k = i
+				}
+			}
+			if h == nil || h.Blocks == nil || !c.P.IsRepoFunc(h) || k < 0 || k >= len(h.Params) {
+				shape = "the new score is not the old score times a factor: " + f.Plain(st.Val)
+			} else {
+				hf := sx.Of(h)
+				for _, ret := range ssau.ReturnsOf(h) {
+					rv := ret.Results[0]
+					if rv == ssa.Value(h.Params[k]) {
+						continue // unchanged
+					}
+					sh, g, al := c19BoostValue(h, hf, rv, func(v ssa.Value) bool { return v == ssa.Value(h.Params[k]) }, ret.Block())
+					if sh != "" {
+						shape = sh
+					}
+					if g == "" && sh == "" {
+						shape = "guard-missing"
+					}
+					guard, alpha = g, al
+				}
+			}
+		} else {
+			shape, guard, alpha = c19BoostValue(fn, f, st.Val, isOwn, st.Block())
+		}
+		if shape != "" && shape != "guard-missing" {
 			r.Bad("O-2", key, c.P.Pos(st.Pos()), shape)
 			continue
 		}
-		// guard sim >= min, min >= 0: with the establishing edges removed the write is unreachable
-		guard := ""
-		cutG := map[[2]int]bool{}
-		for _, iff := range ssau.Ifs(fn) {
-			op, x, y, ok := ssau.CondOf(iff.Cond)
-			if !ok {
-				continue
-			}
-			if f.E(y) == f.E(sim) {
-				x, y, op = y, x, ssau.Flip(op)
-			}
-			if f.E(x) != f.E(sim) {
-				continue
-			}
-			m, isC := ssau.ConstFloat(y)
-			if !isC || m < 0 {
-				continue
-			}
-			// floating point: only the positive form establishes the bound — !(sim < m)
-			// also holds for NaN, which would then be multiplied into the score
-			switch op {
-			case token.GEQ, token.GTR:
-				cutG[[2]int{iff.Block().Index, 0}] = true
-				guard = fmt.Sprintf("sim %s %v", op, m)
-			}
-		}
-		if len(cutG) == 0 || ssau.ReachableAvoidingEdges(fn, st.Block(), cutG) {
+		if shape == "guard-missing" {
 			guard = ""
 		}
 		_ = cd
@@ -352,6 +354,80 @@ func c19Boost(c *Ctx, sx *symx.Ctx) {
 			r.Check(ok, "O-2", fk+"#early-exit:"+exitName(fn, ret), c.P.Pos(ret.Pos()), "returns its input untouched", "an early exit returns something other than the unmodified input list")
 		}
 	}
+}
+
+// c19BoostValue: val is old * (1 + alpha*sim) with a constant alpha >= 0, and
+// block at is reachable only through the true side of sim >= (or >) a
+// non-negative constant. Returns a description of what is wrong with the
+// shape ("" if fine), the guard found ("" if none) and alpha.
+func c19BoostValue(fn *ssa.Function, f *symx.Fn, val ssa.Value, isOld func(ssa.Value) bool, at *ssa.BasicBlock) (shape, guard string, alpha float64) {
+	var sim ssa.Value
+	mul, ok := val.(*ssa.BinOp)
+	if !ok || mul.Op != token.MUL {
+		return "the new score is not the old score times a factor: " + f.Plain(val), "", 0
+	}
+	old, factor := mul.X, mul.Y
+	if !isOld(old) {
+		old, factor = factor, old
+	}
+	if !isOld(old) {
+		return "the factor is not applied to the same element's own score", "", 0
+	}
+	add, ok := factor.(*ssa.BinOp)
+	if !ok || add.Op != token.ADD {
+		return "the factor is not of the form 1 + alpha*sim: " + f.Plain(factor), "", 0
+	}
+	one, term := add.X, add.Y
+	if k, ok := ssau.ConstFloat(one); !ok || k != 1 {
+		one, term = term, one
+	}
+	if k, ok := ssau.ConstFloat(one); !ok || k != 1 {
+		return "the factor's constant term is not 1", "", 0
+	}
+	tm, ok := term.(*ssa.BinOp)
+	if !ok || tm.Op != token.MUL {
+		return "the factor's variable term is not alpha*sim", "", 0
+	}
+	a, s0 := tm.X, tm.Y
+	if _, ok := ssau.ConstFloat(a); !ok {
+		a, s0 = s0, a
+	}
+	av, ok := ssau.ConstFloat(a)
+	if !ok {
+		return "alpha is not a constant", "", 0
+	}
+	if av < 0 || math.IsInf(av, 0) || math.IsNaN(av) {
+		return fmt.Sprintf("alpha = %v is negative or not finite: the stage could lower scores", av), "", 0
+	}
+	sim, alpha = s0, av
+	cutG := map[[2]int]bool{}
+	for _, iff := range ssau.Ifs(fn) {
+		op, x, y, ok := ssau.CondOf(iff.Cond)
+		if !ok {
+			continue
+		}
+		if f.E(y) == f.E(sim) {
+			x, y, op = y, x, ssau.Flip(op)
+		}
+		if f.E(x) != f.E(sim) {
+			continue
+		}
+		m, isC := ssau.ConstFloat(y)
+		if !isC || m < 0 {
+			continue
+		}
+		// floating point: only the positive form establishes the bound — !(sim < m)
+		// also holds for NaN, which would then be multiplied into the score
+		switch op {
+		case token.GEQ, token.GTR:
+			cutG[[2]int{iff.Block().Index, 0}] = true
+			guard = fmt.Sprintf("sim %s %v", op, m)
+		}
+	}
+	if len(cutG) == 0 || ssau.ReachableAvoidingEdges(fn, at, cutG) {
+		guard = ""
+	}
+	return "", guard, alpha
 }
 
 func c19Cosine(c *Ctx, sx *symx.Ctx) {
